@@ -47,5 +47,7 @@ def fix(module: nn.MultiheadAttention, **kwargs) -> DPMultiheadAttention:
         vdim=module.vdim,
         batch_first=module.batch_first,
     )
+    # same dtype before the values are copied: no rounding through the default dtype
+    dp_attn.to(next(module.parameters()).dtype)
     dp_attn.load_state_dict(module.state_dict())
     return dp_attn
